@@ -95,6 +95,15 @@ def oracle(hist, records):
                         ok = ok and ends.get(p["id"], 10**9) < starts[t]
                     if not ok:
                         bad.append(("order", f"build {bi}: task {t} (depends on pattern) ran before producer {p['id']} of the same pattern had finished; reports {order}", None))
+        # (10) no task of these projects carries a skip mark with a true condition (only `skipif` marks whose condition is false):
+        #      nothing may be reported SKIP — neither the marked task nor a descendant, static or defined during the build
+        if not stopped:
+            for t, o in reps:
+                if o == "SKIP":
+                    marked = sorted(u["id"] for u in spec["tasks"] if u.get("skipif_false"))
+                    bad.append(("skip", f"build {bi}: task {t} was reported SKIP although no task is marked to be skipped "
+                                        f"(tasks with a skipif mark whose condition is false: {marked}); reports {reps}", None))
+                    break
         # (8) `@task(after="<expr>")`: the task starts after every task with products whose name the expression matches —
         #     statically declared ones, and generated ones if the task was still pending when their generator defined them
         gen_of = {}
